@@ -147,7 +147,7 @@ package syncer
 
 //   cpArmed  1 between the evaluation of CheckpointInfo.OffsetKey() and the Put that uses it:
 //            that Put is the resume-position write (a business HSET k f v has the same shape)
-//@ pred isCpPut(cmd, args): cpArmed == 1 && cmd == "hset" && len(args) == 7 && hastype(args[6], "int64")
+//@ pred isCpPut(cmd, args): cpArmed == 1 && cmd == "hset" && len(args) >= 3 && hastype(args[len(args) - 1], "int64")
 
 //@ func client.Redis.NewBatcher(self, pipeline) (b)
 //@   trusted abstract target
@@ -156,12 +156,12 @@ package syncer
 
 //@ func common.CmdBatcher.Put(self, cmd, args) (err)
 //@   trusted abstract target
-//@   requires cp_defined [C07]: isCpPut(cmd, args) ==> asint64(args[6]) >= 0
-//@   requires cp_monotone [C07]: isCpPut(cmd, args) ==> asint64(args[6]) >= tCpHigh
+//@   requires cp_defined [C07]: isCpPut(cmd, args) ==> asint64(args[len(args) - 1]) >= 0
+//@   requires cp_monotone [C07]: isCpPut(cmd, args) ==> asint64(args[len(args) - 1]) >= tCpHigh
 //@   modifies bLen, bFirst, bLast, bCpPuts, bCp, bCpPos, tCpHigh, cpArmed
 //@   ensures disarmed: cpArmed == 0
 //@   ensures counted: bLen == old(bLen) + 1 && bLast == cmd && (old(bLen) == 0 ==> bFirst == cmd) && (old(bLen) != 0 ==> bFirst == old(bFirst))
-//@   ensures cp: old(isCpPut(cmd, args)) ==> bCpPuts == old(bCpPuts) + 1 && bCp == asint64(args[6]) && bCpPos == bLen && tCpHigh == asint64(args[6])
+//@   ensures cp: old(isCpPut(cmd, args)) ==> bCpPuts == old(bCpPuts) + 1 && bCp == asint64(args[len(args) - 1]) && bCpPos == bLen && tCpHigh == asint64(args[len(args) - 1])
 //@   ensures not_cp: !old(isCpPut(cmd, args)) ==> bCpPuts == old(bCpPuts) && bCp == old(bCp) && bCpPos == old(bCpPos) && tCpHigh == old(tCpHigh)
 
 //@ func common.CmdBatcher.Len(self) (n)
